@@ -98,15 +98,20 @@ func Verif_C44_evictionList() {
 			verifAssert(!env.preferred[i], "a preferred peer is never proposed for eviction")
 		}
 	}
-	remaining, remSeeders := 0, 0
+	remaining, remSeeders, remFullHistory := 0, 0, 0
 	for i := 0; i < n; i++ {
 		verifAssert(count[i] <= 1, "each peer proposed at most once")
 		if count[i] == 0 && !env.preferred[i] {
 			remaining++
 			if isSeeder[i] {
 				remSeeders++
+			} else if core.P2PPeerType(env.ptype[i]) == core.ObserverPeer && core.P2PPeerSubType(env.subtype[i]) == core.FullHistoryObserver && env.shard[i] == 0 {
+				remFullHistory++
 			}
 		}
+	}
+	if ls.maxFullHistoryObservers > 0 {
+		verifAssert(remFullHistory <= ls.maxFullHistoryObservers, "remaining full-history observers within their limit")
 	}
 	verifAssert(remaining <= ls.maxPeerCount, "remaining non-preferred connections within the target peer count")
 	verifAssert(remSeeders <= ls.maxSeeders, "remaining seeders within their limit")
